@@ -8,6 +8,7 @@ package main
 import (
 	"bufio"
 	"bytes"
+	"crypto"
 	"crypto/aes"
 	"crypto/cipher"
 	"crypto/des"
@@ -240,6 +241,12 @@ func exec(line string) string {
 		return execW(o)
 	case "prim":
 		return execPrim(o)
+	case "km":
+		h, ok := map[string]crypto.Hash{"sha1": crypto.SHA1, "sha256": crypto.SHA256, "sha512": crypto.SHA512}[o.Str("hash")]
+		if !ok {
+			return "bad-op"
+		}
+		return hx.Hex(ssh.VerifGenerateKeyMaterial(o.Int("n"), o.Hex("tag"), o.Hex("k"), o.Hex("h"), o.Hex("sid"), h))
 	}
 	return "bad-op"
 }
@@ -345,7 +352,7 @@ func allPairs() [][2]string {
 
 func gen(g *hx.Gen) {
 	r := g.R
-	n := g.Count(800, 60000)
+	n := g.Count(600, 30000)
 
 	// the primitives alone
 	for i := 0; i < 60; i++ {
@@ -370,10 +377,22 @@ func gen(g *hx.Gen) {
 		g.Emit("prim f=chacha key=%s nonce=%s ctr=%d n=%d", hx.Hex(r.Bytes(32)), hx.Hex(r.Bytes(12)), r.PickInt(0, 1, 7), r.Range(0, 200))
 	}
 
-	// every pair: payload lengths 1..40 in one history (all alignments), a wrap of the sequence number,
+	// generateKeyMaterial: every length 0..200 once per hash (1..10 digest blocks), random K / H / session id sizes
+	for _, hn := range []string{"sha1", "sha256", "sha512"} {
+		for ln := 0; ln <= 200; ln++ {
+			if ln > 70 && ln%7 != 0 && ln%20 > 1 && ln%32 > 1 {
+				continue
+			}
+			g.Emit("km hash=%s n=%d tag=%s k=%s h=%s sid=%s", hn, ln, hx.Hex([]byte{byte('A' + r.Intn(6))}), hx.Hex(r.Bytes(r.PickInt(0, 5, 37, 260))),
+				hx.Hex(r.Bytes(r.PickInt(20, 32, 64))), hx.Hex(r.Bytes(r.PickInt(0, 20, 32, 64))))
+			g.Stat("keymat")
+		}
+	}
+
+	// every pair: payload lengths 1..20 in one history (all alignments), a wrap of the sequence number,
 	// and the region around maxPacket (where the writer accepts what its own reader refuses)
 	for _, pr := range allPairs() {
-		lens := make([]int, 40)
+		lens := make([]int, 20)
 		for i := range lens {
 			lens[i] = i + 1
 		}
